@@ -4,7 +4,10 @@
 // real aggregators; every renderer is driven with the calling pattern of its
 // command (cmd/histo.go, cmd/bargraph.go, cmd/tabulate.go, cmd/heatmap.go,
 // cmd/spark.go transcribed below; cmd/reduce.go through the CLI binary) into
-// a multiterm.VirtualTerm, repeatedly while the history grows.
+// a multiterm.VirtualTerm, repeatedly while the history grows. The commands'
+// own code between flag table and renderer is covered by snapshot_cli_test.go:
+// the real binary with every display flag, its final frame read back under
+// the same per-render laws.
 package c14
 
 import (
